@@ -149,10 +149,13 @@ func GenDef(r *rand.Rand, p *Profile) Cfg {
 	// options: a name or alias must be unique among the options visible together, i.e. along every root..leaf chain;
 	// sibling commands may (and do) reuse names
 	related := func(a, b int) bool { // is a an ancestor-or-self of b, or the other way round?
-		anc := func(x, y int) bool {
+		anc := func(x, y int) bool { // are the options declared at x visible at y? (not across a wrapper's UnsetOptions)
 			for y != 0 {
 				if y == x {
 					return true
+				}
+				if c.Nodes[y-1].Unset {
+					return false
 				}
 				y = c.Nodes[y-1].Parent
 			}
@@ -303,7 +306,26 @@ func GenDef(r *rand.Rand, p *Profile) Cfg {
 	c.OptsLate = chance(r, 0.3)
 	c.EnvLate = chance(r, 0.3)
 	c.EnvStep = chance(r, 0.3)
-	if len(c.Nodes) > 1 && chance(r, 0.15) {
+	dup := false // a name declared on both sides of a wrapper: options stay where they are
+	onPath := func(x, y int) bool {
+		for y != 0 {
+			if y == x {
+				return true
+			}
+			y = c.Nodes[y-1].Parent
+		}
+		return false
+	}
+	for _, ns := range usedAt {
+		for i := range ns {
+			for j := range ns {
+				if i != j && onPath(ns[i], ns[j]) {
+					dup = true
+				}
+			}
+		}
+	}
+	if len(c.Nodes) > 1 && chance(r, 0.15) && !dup {
 		// a program whose top level declares no options of its own: everything lives in the commands
 		targets := []int{}
 		for i := range c.Nodes[1:] {
